@@ -3,7 +3,7 @@ import NomtModel.Props.C02_WalkReconUpdate
 # C16 — the diff of the pages an updating walker hands out when it entered reconstructed pages
 
 `T16_walker_diff_names_changes_partial` for page sets with reconstructed pages on the way: it is the last clause of
-`T2_walker_root_reconstructed_partial` — the diff of every page handed out names every slot that differs from the page it
+`T2_walker_root_reconstructed` — the diff of every page handed out names every slot that differs from the page it
 started from (for a reconstructed page: the reconstructed page of the page set; the diff handed out additionally contains the
 reconstruction diff, `T16_promoted_page_diff`).
 -/
@@ -12,22 +12,58 @@ open Nomt Nomt.Walker Nomt.TriePos
 
 variable {Node VH : Type} [DecidableEq Node] [DecidableEq VH] (H : Hasher Node VH)
 
-/-- **T16_walker_diff_names_changes over reconstructed pages (narrowed to one guard)** -/
-theorem T16_walker_diff_names_changes_reconstructed_partial (hs : H.Sound) (ps : PageSet Node) (root : Node)
+/-- **T16_walker_diff_names_changes over reconstructed pages**: the walk does not panic and the diff of every page handed out
+names every slot that differs from the page it started from -/
+theorem T16_walker_diff_names_changes_reconstructed (hs : H.Sound) (ps : PageSet Node) (root : Node)
     {S S' : List (Key × VH)} (hS : KeysOK S) (hS' : KeysOK S') {steps : List (Step VH)} (hso : ScriptOK S S' steps)
     (hps : G.PSOK ps steps) (hrep : Represents H ps root S) (inhibit : Bool) :
-    (∃ w' r pages, (Walker.start root inhibit).runM H ps steps = .ok w' ∧ w'.conclude H = .ok (.root r pages) ∧
+    ∃ w' r pages, (Walker.start root inhibit).runM H ps steps = .ok w' ∧ w'.conclude H = .ok (.root r pages) ∧
       ∀ o ∈ pages, ∃ P pg d b base, o = .updated P pg d b ∧
         (base = ps.fresh P ∨ ∃ e og, ps.get P = some (⟨base, e⟩, og)) ∧
-        ∀ i, i < 126 → pg.nodes.getD i H.term ≠ base.getD i H.term → d.changed i = true) ∨
-    (Walker.start root inhibit).runM H ps steps = .panic G.GUARD ∨
-    (∃ w', (Walker.start root inhibit).runM H ps steps = .ok w' ∧ w'.conclude H = .panic G.GUARD) := by
-  rcases C02.T2_walker_root_reconstructed_partial H hs ps root hS hS' hso hps hrep inhibit with ⟨w', pages, h1, h2, h3⟩ | h
-  · refine Or.inl ⟨w', _, pages, h1, h2, ?_⟩
-    intro o ho
-    obtain ⟨P, pg, d, b, e, _, _, base, hb, hd⟩ := h3 o ho
-    exact ⟨P, pg, d, b, base, e, hb, hd⟩
-  · exact Or.inr h
+        ∀ i, i < 126 → pg.nodes.getD i H.term ≠ base.getD i H.term → d.changed i = true := by
+  obtain ⟨w', pages, h1, h2, h3⟩ := C02.T2_walker_root_reconstructed H hs ps root hS hS' hso hps hrep inhibit
+  refine ⟨w', _, pages, h1, h2, ?_⟩
+  intro o ho
+  obtain ⟨P, pg, d, b, e, _, _, base, hb, hd⟩ := h3 o ho
+  exact ⟨P, pg, d, b, base, e, hb, hd⟩
+
+/-- **T16_walker_names_every_written_slot — absolutely, not relative to the pool page**: along a walk (any origin of the pages on
+the way), for every page handed out: its diff names EVERY slot the walker wrote into it (`G.walkWrites`), and the walker
+writes every meaningful slot at or below every replaced terminal (`set_node` for the nodes, `zero_sibling` for the
+terminators next to one-sided branches).  So a page that lies below a replaced terminal — a page the walk CREATES, which goes
+to a fresh bucket — has every slot the new trie defines in it named by its diff, whatever the un-zeroed pool page held; and
+the part below the terminal of the terminal's own page as well. -/
+theorem T16_walker_names_every_written_slot (hs : H.Sound) (ps : PageSet Node) (root : Node)
+    {S S' : List (Key × VH)} (hS : KeysOK S) (hS' : KeysOK S') {steps : List (Step VH)} (hso : ScriptOK S S' steps)
+    (hps : G.PSOK ps steps) (hrep : Represents H ps root S) (inhibit : Bool) :
+    ∃ w' r pages, (Walker.start root inhibit).runM H ps steps = .ok w' ∧ w'.conclude H = .ok (.root r pages) ∧
+      ∀ o ∈ pages, ∃ P pg d b, o = .updated P pg d b ∧
+        (∀ q ∈ G.walkWrites H ps none root steps, q ≠ [] → specPage q = P → d.changed (specIndex q) = true) ∧
+        ∀ s ∈ steps, s.2.isSome = true → ∀ q, s.1 <+: q → q ≠ [] → q.length ≤ 256 → (q = s.1 ∨ Mean S' q) →
+          specPage q = P → d.changed (specIndex q) = true := by
+  have hrepR := rep_matR H ps hS hso hrep
+  have hDp : PathsIn (MatR ps steps) steps := by
+    intro s hs' x hx hne
+    have := G.pathsIn_of_psok ps hps s hs' x hx hne
+    exact ⟨Or.inl this.1, Or.inl this.2⟩
+  have hnd := G.final_log_nodup H ps hs none hS hS' hso hrepR hDp
+  obtain ⟨w', hw', hinv⟩ := G.runInv_run H ps hs hS hS' hrepR (Or.inl (Or.inl rfl)) steps [] _ _
+    (by simpa using hso) (by simpa using hps) (by simpa using hDp) (by intro P0 hp; cases hp)
+    (G.runInv_start H ps _ none root S S' steps inhibit) _ hnd (tw_compactUp_log_prefix H _ _ none)
+  simp only [List.nil_append] at hinv
+  obtain ⟨pages, hc, hpg⟩ := G.conclude_spec H ps hs hS hS' hso hrepR (Or.inl (Or.inl rfl)) hinv hnd
+  refine ⟨w', _, pages, hw', hc, ?_⟩
+  intro o ho
+  obtain ⟨P, pg, d, b, e, _, _, _, hnamed⟩ := hpg o ho
+  refine ⟨P, pg, d, b, e, hnamed, ?_⟩
+  intro s hs' hsome q hq hne hl hm hqp
+  have hbw := G.walkWrites_block H ps hs hS' none root hso s hs' hsome
+  apply hnamed q ?_ hne hqp
+  rcases hm with h1 | h1
+  · rw [h1]; exact hbw.1
+  · by_cases hqs : q = s.1
+    · rw [hqs]; exact hbw.1
+    · exact hbw.2 q hq hqs hl h1
 
 example : G.PSOK Ex2.ps2r Ex2.steps2 ∧ Represents TH Ex2.ps2r Ex2.root2 Ex2.S2 := ⟨Ex2.psok2r, Ex2.rep2r⟩
 
